@@ -72,6 +72,10 @@ CHECKS = {
             "TLC derives every document of up to 3-4 constructs (prolog, PIs with pseudo-attributes, DOCTYPE with internal subset, comments, CDATA with look-alikes, elements with both quote styles, empty-element tags, character data) with the expected token list; the harness spells each (several seeded spellings), lexes it, runs encoding/xml on it, and mutates it (truncation, NUL, 0xFF, lone lead byte); TLC validates the token list, the three-way agreement of element/attribute names and values, and for all inputs that attribute tokens occur only inside a tag and that an embedded NUL ends in a non-EOF error.",
             "Entity references in attribute values, CRLF inside values and conditional sections are not generated; DOCTYPE text compared after trimming.",
             "DESIGN.md §4 C11"),
+    "C09": ("TLA+ construct grammar HtmlDoc.tla (documents as sequences of constructs with expected tokens, script data/escaped/double-escaped states transcribed) and all-input monitor HtmlStream.tla; documents x spellings x dialects x mutations lexed by html.Lexer; TLC trace validation",
+            "TLC derives every document of up to 3 constructs (text, comments, doctype, CDATA, start tags with four attribute styles, void and end tags, the seven raw-text elements with look-alike end tags and double-escape shapes, svg/math subtrees) and, per template dialect, delimited regions in text, tags, attribute names and values and raw text; the harness spells each with case and whitespace variations, lexes it under the plain lexer and the dialects, mutates it, and TLC validates one token per construct with type, lower-cased Text()/AttrKey(), verbatim AttrVal(), HasTemplate(), and for all inputs that attribute tokens occur only inside a tag and raw text is never tokenised as markup.",
+            "Regions directly followed by name characters, and regions in comments/doctype/CDATA/plaintext/svg are not generated. 17 recorded finding signatures from six defects (nested svg/math, closers in single-quoted attributes, template regions after a prefix / in raw text / inside script escapes).",
+            "DESIGN.md §4 C09"),
 }
 NOT_APPLICABLE = {
 }
